@@ -4,6 +4,7 @@ import AvroModel.Drv.Enc
 import AvroModel.Drv.CodecDrv
 import AvroModel.Drv.Time
 import AvroModel.Drv.Bank
+import AvroModel.Drv.Conc
 import AvroModel.Drv.SchemaGen
 open Avro Avro.Sexp Avro.Drv
 
@@ -14,9 +15,12 @@ def dispatch (prop : String) (op : String) (args : List Sexp) : Verdict :=
   | "C16" => c16 op args
   | "C03" => c03 op args
   | "C04" => c04 op args
+  | "C13" => c13 op args
+  | "C02" => c02 op args
   | "C18" => c18 op args
   | "C19" => c19 op args
   | "C10" => c10 op args
+  | "C12" => c12 op args
   | "C15" => c15 op args
   | "C20" => c20 op args
   | _ => .bad s!"unknown property {prop}"
